@@ -72,8 +72,8 @@ def observe(res, model_sched=None):
     steals_obs = []      # (k, thief, what, owner)
     mismatch = None
     init_lock = {"none": ["absent", "noone"], "dead_lock": ["full", "dead"], "dead_lock_meta": ["full", "dead"],
-                 "dead_partial": ["partial", "dead"], "live_serving": ["full", "res"], "live_starting": ["full", "res"]}[res["start"]]
-    init_meta = {"dead_lock_meta": ["meta", "dead"], "live_serving": ["meta", "res"]}.get(res["start"], ["absent", "noone"])
+                 "dead_partial": ["partial", "dead"], "dead_meta": ["absent", "noone"], "live_serving": ["full", "res"], "live_starting": ["full", "res"]}[res["start"]]
+    init_meta = {"dead_lock_meta": ["meta", "dead"], "dead_meta": ["meta", "dead"], "live_serving": ["meta", "res"]}.get(res["start"], ["absent", "noone"])
     prev_lock, prev_meta = init_lock, init_meta
     for st in res["steps"]:
         k = st["k"]
